@@ -8,7 +8,6 @@ NOT_APPLICABLE = {
     "C15": "partition argument runs through IndexMap, iterator chains with closures and f64 equality; thresholds put any Kani bound below the point where the code does anything (DESIGN §4 C15)",
     "C16": "global optimality of a Newton solve of Kepler's equation over transcendental functions: numerical analysis, not a contract (DESIGN §4 C16)",
     "C17": "bit-for-bit and relative-error claims on f64 loops built from iterator chains; Verus has no float theory and the smallest relevant input is beyond bit-precise CBMC (DESIGN §4 C17)",
-    "C18": "not claimed: DriftTable::at is float arithmetic over uom quantities and an iterator scan; Verus leaves the floats uninterpreted, and the only reachable statement was a Kani bound of <=3 table entries (261 s for 2 entries in the design spike) about the index arithmetic -- monotonicity, continuity and the correction range are properties of the shipped numbers, not of the code; the bounded harness was not built",
 }
 
 _COMMON_NOTE = ("Trusted: Verus/Z3, rustc, Kani/CBMC, vstd specs of core/alloc, the extractor's rewrite rules (reported per run in evidence.coverage.rules_fired), "
@@ -74,6 +73,12 @@ TEXT = {
         "design_ref": "DESIGN.md §4 C13",
         "level_text": "Index layer only: contiguous_ranges is proved to return blocks that cover exactly the occupied wires and in which every two adjacent occupied wires (including 255/0) are adjacent unknowns -- for every occupancy except the full ring, where the obligation fails (recorded known finding); the induction coefficient is proved to depend on the distance only; wire<->pad-column arithmetic is proved.",
         "level_note": _COMMON_NOTE + " Bounded stand-ins: c13_dims (ring index helpers, verbatim text, against the cyclic-range specification) and c13_sym (rotation by whole pad columns and z mirror of four synthetic events through the public API, bit-exact). NOT decided by proof: that the numeric kernels (faer Cholesky, ls_deconvolution, matching) depend only on block-ordered inputs (A-NUMERIC-LOCAL), the z-mirror clause.",
+    },
+    "C18": {
+        "technique": "Verus contracts on the real DriftTable::at, DriftTables::at and SpacePoint::try_from(Avalanche) over opaque quantities; bounded native grid over the shipped table for the numeric clauses",
+        "design_ref": "DESIGN.md §9.7",
+        "level_text": "Proved for every table of >= 2 knots and every non-NaN z and t: the conversion fails with AxialPositionOutOfRange(z) exactly when |z| exceeds the last tabulated bound, otherwise selects the first slice whose bound is >= |z| (hence identical for z and -z), fails with DriftTimeOutOfRange(t) exactly when t is outside [first, last] tabulated time of that slice, and otherwise returns lhs + fraction * (rhs - lhs) for the two adjacent knots that bracket t (last two at t = last), radius and Lorentz correction alike, phi = avalanche phi - correction, z passed through; no index underflow, no out-of-bounds access, no unwrap on None.",
+        "level_note": _COMMON_NOTE + " uom quantities are opaque in the proof (comparison and arithmetic are uninterpreted functions; three IEEE facts are axioms: comparison is antisymmetric, None only on NaN, |x| is NaN only if x is). Consequently the numeric clauses of the statement -- radius within the tabulated range, non-increasing, < 0.5 mm per 8 ns, knots reproduced to 1e-12, correction in [0, max] -- are NOT proved: they are measured by the bounded native check c18_grid on all 92 shipped tables (every knot, +-1 ulp, midpoints, every slice boundary +-1 ulp, both signs: 2.3 million lookups), labelled bounded. The step clause fails on the shipped numbers at 135 listed knot intervals (known finding).",
     },
     "C19": {
         "technique": "Verus contract on the scan-step statements cut out of both binaries",
